@@ -1194,6 +1194,6 @@ theorem WF.step {w : World} (h : WF w) (op : Op) : WF (w.step op).1 := by
         · exact Frame.refl w
   | tracer t => simp only []; exact h.frame ⟨rfl, rfl, rfl, rfl⟩
   | killtracer t => simp only []; exact h.frame ⟨rfl, rfl, rfl, rfl⟩
-  | setreporter r => simp only []; exact h.frame ⟨rfl, rfl, rfl, rfl⟩
+  | setreporter r ok => simp only []; exact h.frame ⟨rfl, rfl, rfl, rfl⟩
 
 end Tromp
